@@ -76,13 +76,24 @@ def norm(ts):
 
 
 def diff(a, b):
-    a = list(a)
+    """a - b as additive terms; constants are subtracted numerically."""
+    isc = lambda t: re.match(r"^#\d+$", t) is not None
+    ca = sum(int(t[1:]) for t in a if isc(t))
+    cb = sum(int(t[1:]) for t in b if isc(t))
+    a = [t for t in a if not isc(t)]
     for t in b:
+        if isc(t):
+            continue
         if t in a:
             a.remove(t)
         else:
             a.append("-" + t)
-    return norm(a)
+    out = sorted(a)
+    if ca - cb > 0:
+        out.append("#%d" % (ca - cb))
+    elif ca - cb < 0:
+        out.append("-#%d" % (cb - ca))
+    return out
 
 
 def run(ctx, res):
